@@ -3,5 +3,5 @@
 /verif/tools/confirm_seed.sh /tmp/wt/out/$1/$2 $3 2>&1 | tail -2
 [ -f /verif/seeded/$3/meta.json ] && python3 - /verif/seeded/$3/meta.json <<'PY'
 import json,sys
-m=json.load(open(sys.argv[1])); m['round']=5; json.dump(m,open(sys.argv[1],'w'),indent=1)
+m=json.load(open(sys.argv[1])); m["round"]=int(__import__("os").environ.get("ROUND","5")); json.dump(m,open(sys.argv[1],'w'),indent=1)
 PY
